@@ -1,7 +1,7 @@
 #!/usr/bin/env python3
 """Re-runs the checks against every kept seeded change (sensitivity regression after the checks were edited).
 
-  tools/seeded_rerun.py [name ...]     # default: all directories under seeded/
+  tools/seeded_rerun.py [--shard=k/n] [name ...]     # default: all directories under seeded/
 
 Each patch is applied to a scratch worktree of /repo's HEAD (/tmp/wt-rerun, created and removed here), the
 property's check runs with VERIF_REPO pointing there (quick, then thorough if quick is silent), and the result is
@@ -16,7 +16,14 @@ def sh(cmd, cwd=ROOT, env=None):
     r = subprocess.run(cmd, cwd=cwd, shell=True, env=env or ENV, stdout=subprocess.PIPE, stderr=subprocess.STDOUT, text=True, errors="replace")
     return r.returncode, r.stdout
 
-names = sys.argv[1:] or sorted(d for d in os.listdir(os.path.join(ROOT, "seeded")) if os.path.isdir(os.path.join(ROOT, "seeded", d)))
+args = sys.argv[1:]
+shard, nshards = 0, 1
+if args and args[0].startswith("--shard="):  # --shard=k/n : every n-th change (several instances may run side by side)
+    shard, nshards = map(int, args.pop(0).split("=")[1].split("/"))
+    WT = "/tmp/wt-rerun-%d" % shard
+    ENV["VERIF_REPO"] = WT
+names = args or sorted(d for d in os.listdir(os.path.join(ROOT, "seeded")) if os.path.isdir(os.path.join(ROOT, "seeded", d)))
+names = [n for i, n in enumerate(names) if i % nshards == shard]
 sh("git -C /repo worktree remove --force %s; git -C /repo worktree add --detach %s HEAD" % (WT, WT))
 missed = []
 try:
@@ -45,6 +52,7 @@ try:
             missed.append(n)
 finally:
     sh("git -C /repo worktree remove --force %s" % WT)
-    sh("rm -rf %s" % os.path.join(ROOT, "replays"))
+    if nshards == 1:
+        sh("rm -rf %s" % os.path.join(ROOT, "replays"))
 print("missed:", missed)
 sys.exit(1 if missed else 0)
